@@ -1063,6 +1063,18 @@ fn merge_so_object(
                 })
                 .collect::<Result<schemars::Map<_, _>, _>>()?;
 
+            // If no other properties are permitted, a required property that
+            // isn't (or is no longer) among the permitted ones makes the
+            // object unsatisfiable.
+            if let Some(Schema::Bool(false)) = additional_properties {
+                if aa.pattern_properties.is_empty()
+                    && bb.pattern_properties.is_empty()
+                    && required.iter().any(|name| !properties.contains_key(name))
+                {
+                    return Err(());
+                }
+            }
+
             let max_properties = choose_value(aa.max_properties, bb.max_properties, Ord::min);
             let min_properties = choose_value(aa.min_properties, bb.min_properties, Ord::max);
 
